@@ -31,7 +31,7 @@ class Ctx:
     def __init__(self, pid, tier, seed):
         self.pid, self.tier, self.seed = pid, tier, seed
         self.t0 = time.time()
-        self.work = f'{VERIF}/.work/{pid}'
+        self.work = f'{VERIF}/.work/{pid}' + os.environ.get('VERIF_WORK_SUFFIX', '')
         self.states = 0
         self.transitions = 0
         self.mc_jobs = []
